@@ -28,14 +28,17 @@ class _Cexptrk_Potential_Function(object):
     label = func._potential_form_tuple.signature.label
     try:
       self._local_symbol_table.functions[label] = func
-    except cexprtk._exceptions.NameShadowException as e:
+    except (cexprtk._exceptions.NameShadowException, KeyError) as e:
+      # KeyError: the label is already in use as the name of one of this form's parameters
       msg = "Name clash for potential-form '{}': {}".format(label, str(e))
       raise Potential_Form_Exception(msg)
       
 
   def __call__(self, *args):
     parameter_names = self._potential_form_tuple.signature.parameter_names
-    assert len(args) == len(parameter_names)
+    if len(args) != len(parameter_names):
+      raise Potential_Form_Exception("Potential function '{}' requires {} arguments but {} were provided".format(
+        self._potential_form_tuple.signature.label, len(parameter_names), len(args)))
     for (pn, v) in zip(parameter_names, args):
       self._local_symbol_table.variables[pn] = v
 
